@@ -63,6 +63,19 @@ def gen_system(rng, cat, n, thorough):
         A, b = list(box), [FR(2)] * (2 * n)
         A.append([s_ if j == k else FR(0) for j in range(n)])
         b.append(s_ * rng.choice([FR(1), FR(0), FR(-1)]))
+    elif cat == "far":
+        # a region far from the origin / big-M bounds: the bias of a row is 1e8..1e10 times its normal
+        c_ = rng.choice([FR(10**9), FR(2 * 10**9), FR(-3 * 10**9), FR(10**10)])
+        w_ = rng.choice([FR(1), FR(10), FR(10**9)])
+        k = rng.randrange(n)
+        A, b = list(box), [FR(1)] * (2 * n)
+        b[k], b[n + k] = c_ + w_, -c_            # c <= x_k <= c + w
+        if rng.random() < 0.4:
+            A, b = A[:n + k] + A[n + k + 1:], b[:n + k] + b[n + k + 1:]
+            b[k] = abs(c_)                       # big-M: -1 <= x_k <= |c| only
+            A.append(box[n + k]); b.append(FR(1))
+    elif cat == "no-rows":
+        A, b = [], []
     elif cat == "free-direction":
         # constraints that leave at least one coordinate completely free
         k = rng.randrange(n)
@@ -75,7 +88,8 @@ def gen_system(rng, cat, n, thorough):
 
 
 CATS = ["bounded", "bounded", "empty-margin", "empty-hair", "point", "lowerdim", "unbounded", "redundant", "zero-rows", "parallel",
-        "free-direction", "mixed-scale", "tiny-row", "random"]
+        "free-direction", "mixed-scale", "tiny-row", "far", "random"]
+CATS10 = CATS + ["no-rows"]
 
 
 def make_cases(chk):
@@ -83,7 +97,7 @@ def make_cases(chk):
     quick = chk.tier == "quick"
     cases = []
     for i in range(480 if quick else 50000):
-        cat = CATS[i % len(CATS)]
+        cat = CATS10[i % len(CATS10)]
         n = rng.choice([1, 2, 2, 3] if quick else [1, 2, 2, 3, 3, 4])
         A, b = gen_system(rng, cat, n, not quick)
         objs = [[FR(0)] * n]
